@@ -341,7 +341,46 @@ def job(job):
                 if model_state(m3) != before:
                     viols.append(common.Violation(f'rejected_but_model_changed:{why}:after_append', 'a rejected association changed the model', case=case))
                     break
+    if name == 'OPS':
+        viols += dense_rejections(fx, stats)
     return stats, [v.to_json() for v in viols[:60]]
+
+
+def dense_rejections(fx, stats):
+    """a rejection must also arrive when the assets involved are densely linked (twelve hosts, every pair linked by
+    an association of its own): the error message must not expand the object graph"""
+    from maltoolbox.model import Model
+    out = []
+    ns = fx.ns
+    m = Model('dense', fx.factory)
+    hs = [ns.Host(name=f'h{i}') for i in range(12)]
+    d = ns.Data(name='d')
+    for o in hs + [d]:
+        m.add_asset(o)
+    for i in range(12):
+        for j in range(i + 1, 12):
+            m.add_association(ns.Peer(peers=[hs[i]], peersOf=[hs[j]]))
+    before = model_state(m)
+    attempts = {'too_many': lambda: m.add_association(ns.Run(host=[hs[0], hs[1]], apps=[hs[2]])),
+                'wrong_type': lambda: m.add_association(ns.Holds(owner=[hs[0]], datas=[hs[1]])),
+                'duplicate_link': lambda: m.add_association(ns.Peer(peers=[hs[0]], peersOf=[hs[1]])),
+                'repeated_asset': lambda: m.add_association(ns.Peer(peers=[hs[3], hs[3]], peersOf=[hs[1]]))}
+    for why, attempt in attempts.items():
+        stats['attempts'] = stats.get('attempts', 0) + 1
+        case = {'language': 'OPS', 'model': '12 hosts, every pair linked by its own Peer association', 'attempt': why}
+        try:
+            with common.time_limit(5):
+                attempt()
+            out.append(common.Violation(f'invalid_association_accepted:{why}:dense_model', f'{why} accepted', case=case))
+        except common.Timeout:
+            out.append(common.Violation(f'rejection_does_not_arrive:{why}:dense_model',
+                                        'rejecting an invalid association takes more than 5 s CPU in a densely linked model', case=case))
+            break
+        except Exception:  # noqa: BLE001
+            stats['rejected'] = stats.get('rejected', 0) + 1
+        if model_state(m) != before:
+            out.append(common.Violation(f'rejected_but_model_changed:{why}:dense_model', 'a rejected association changed the model', case=case))
+    return out
 
 
 def run(tier, seed):
